@@ -171,6 +171,14 @@ pub fn plan(tier: Tier) -> Plan {
       n_pipes += 1;
       jobs.push(unsub_job(Pipe::hot(0).o1(t), form, 6, 2));
     }
+    // a `create` producer that keeps its subscriber and emits later: the handle
+    // returned by subscribe is what stops it
+    n_pipes += 1;
+    jobs.push(unsub_job(Pipe::S(Src::Raw(0)), form, len + 1, 0));
+    for o in &sync {
+      n_pipes += 1;
+      jobs.push(unsub_job(Pipe::S(Src::Raw(0)).o1(o.clone()), form, len, 0));
+    }
     // a guard is a guard also when its scope unwinds
     for p in [Pipe::hot(0), Pipe::hot(0).o1(Op1::Delay(1)), Pipe::S(Src::Interval(1)), Pipe::hot(0).o2(Op2::Merge, Pipe::hot(1))] {
       n_pipes += 1;
